@@ -409,7 +409,7 @@ func (r *renv) reopen(rt *rapid.T) {
 }
 
 func TestReplicaFollowsPrimary(t *testing.T) {
-	vk.Check(t, 240, 6000, func(rt *rapid.T, c *vk.Case) {
+	vk.Check(t, 240, 5000, func(rt *rapid.T, c *vk.Case) {
 		cfg := stx.GenCfg(rt)
 		cfg.Compression = 0
 		cfg.MaxTxEntries = rapid.SampledFrom([]int{8, 32}).Draw(rt, "maxTxEntries2")
